@@ -153,7 +153,7 @@ static void run_field(const FieldOps& f, long round, Rng& r, bool thorough) {
     const std::string& key = f.key;
     for (u64 x : vals) {
         if (key == "IP.src_addr" && x == 0) continue;
-        View before; before.strict_exceptions = false; describe_layer(o, before); Bytes y0 = ser(o); u32 size0 = o.size();
+        Bytes y0 = ser(o); View before; before.strict_exceptions = false; describe_layer(o, before); u32 size0 = o.size();      // view AFTER the serialization: serialize() refreshes derived fields, and getters that overlay a derived octet (ICMP id/length for the RFC 4884 types) move with it
         describe_case("field=" + key + " class=" + f.cls + " x=" + std::to_string(x) + " state=" + std::to_string(state));
         Val v;
         try { v = f.set(o, x, r); }
